@@ -92,3 +92,42 @@ def run(chk):
                           key='sum' + (' gen-on-wall' if any(gen_on_wall(inp, i) for i in range(inp.n)) else ''))
         nvo += 1
     chk.extra_cov['volume_integral_records'] = nvo
+
+    # ---- large inputs of very uneven density (op recip: 300 … 1500 generators, blobs + isolated generators, voids in shells,
+    #      filaments, sheets; mostly periodic): positive measures that sum to the box
+    binary, _ = cargo_build('ibig,rayon', False)
+    rec_f = os.path.join(chk.wdir(), 'recip.rec')
+    rc, fams, err = run_harness(binary, 'recip', chk.seed, chk.tier, rec_f)
+    if rc != 0:
+        chk.violation('harness', 'harness op recip failed: %s' % err[-300:], None)
+        return
+    for k, v in fams.items():
+        chk.families[k] = chk.families.get(k, 0) + v
+    nbig = 0
+    for r in read_records(rec_f):
+        chk.count()
+        rp = {'op': 'recip', 'ids': [r.id], 'family': r.family, 'record': r.line[:2000]}
+        if r.res[0] != 'OK':
+            chk.panic_record(r, ' '.join(r.res)[:300], rp)
+            continue
+        inp = parse_input(r.inp)
+        tol = Tol(inp)
+        if tol.ill:
+            continue
+        k = r.res.index('NC')
+        nc = int(r.res[k + 1])
+        vols = [hex_to_float(x) for x in r.res[k + 2:k + 2 + nc]]
+        where = '(record %d, %s, %d generators)' % (r.id, r.family, inp.n)
+        if any(not (v == v) for v in vols):
+            chk.violation('impl-vs-oracle', 'non-finite cell volume %s' % where, rp, key='nonfinite')
+            continue
+        if any(not v > 0 for v in vols):
+            chk.violation('impl-vs-oracle', 'a cell has non-positive measure %s' % where, rp, key='positive')
+        box = float(tol.boxvol)
+        if nc != inp.n or abs(sum(vols) - box) > max(float(tol.vol) * 10, 1e-9 * box):
+            chk.violation('impl-vs-oracle', 'cell measures sum to %.17g, the box measure is %.17g %s' % (sum(vols), box, where), rp,
+                          key='sum' + (' gen-on-wall' if any(gen_on_wall(inp, i) for i in range(inp.n)) else ''))
+        nbig += 1
+        chk.traces += 1
+        chk.nontriv(('recip', r.id))
+    chk.extra_cov['large_uneven_records'] = nbig
